@@ -769,7 +769,7 @@ class PseudoNetCDFFile(PseudoNetCDFSelfReg, object):
 
         for oldkey, newkey in newkeys.items():
             outf.copyVariable(self.variables[oldkey], key=newkey)
-            if oldkey in outf.variables:
+            if oldkey != newkey and oldkey in outf.variables:
                 del outf.variables[oldkey]
 
         return outf
